@@ -1,8 +1,19 @@
-"""C10 - see lib/srvprop.py (family table, generators) and spec/H2Server.tla, spec/H2ServerTrace.tla."""
+"""C10 - see lib/srvprop.py (family table, generators) and spec/H2Server.tla, spec/H2ServerTrace.tla.
+Goroutine-level models: spec/GoAwayHandshake.tla (last-stream-id of a GOAWAY sent beside the stream loop; bound to the
+code by the "hs" step events, clause C10:goaway-handshake-out-of-order) and spec/H2Teardown.tla (ServeConn returns)."""
 import srvprop
 
 
+def models(ctx):
+    ctx.model_check('GoAwayHandshake', 'GoAwayHandshake.cfg', workers=2)
+    ctx.model_expect_violation('GoAwayHandshake', 'GoAwayHandshake_bad1.cfg', 'GoAwayTruth', workers=2)
+    ctx.model_expect_violation('GoAwayHandshake', 'GoAwayHandshake_bad2.cfg', 'GoAwayTruth', workers=2)
+    ctx.model_check('H2Teardown', 'H2Teardown.cfg', workers=8)
+    ctx.model_expect_violation('H2Teardown', 'H2Teardown_asfound.cfg', 'C17_Exit', workers=8)
+
+
 def run(ctx):
+    models(ctx)
     srvprop.run(ctx, 'C10')
 
 
